@@ -4,7 +4,7 @@
    by harness/c03.py: every generated history is replayed on the model (check_history) and the tensors whose
    observable value changed in the implementation must be among those the model allows to change.
    Every proof is `exact <lemma>` or an instance of the central frame lemma. *)
-From TenpyV Require Import Base.Prelude Model.Store Proofs.StoreP Proofs.StoreP2.
+From TenpyV Require Import Base.Prelude Model.Store Proofs.StoreP Proofs.StoreP2 Model.StoreMps Proofs.StoreMpsP.
 Open Scope nat_scope.
 
 (* the central statement: whatever operation runs, a live tensor that is not in the (small, explicit)
@@ -129,6 +129,121 @@ Proof. exact checked_history_applicable. Qed.
 Theorem T03_wf_preserved : forall h o, wf h -> op_ok h o -> wf (fst (exec h o)).
 Proof. exact wf_exec. Qed.
 
+(* ---- LegCharge objects shared between tensors.  x and y are two live tensors holding the SAME LegCharge object l
+   (same identity in the heap).  (1) Whatever history of operations runs (on x, on y, on anything; no applicability
+   hypothesis is needed), the object l has the content it had.  (2) Whatever single operation runs that is not a
+   rebinding in-place method called on y itself (so: every function, every in-place method on x -- including iproject,
+   which gives x NEW legs -- and buffer-writing methods on y), the legs observed through y (legs_view: the contents of
+   all LegCharge objects of y, in order) are unchanged and still contain the content of l. *)
+Theorem T03_legs_shared_across_tensors : forall h x y l, wf h -> live h x -> live h y ->
+  In l (lg (obj h x)) -> In l (lg (obj h y)) ->
+  (forall os, nth l (legs (run h os)) dleg = nth l (legs h) dleg) /\
+  (forall o, (forall r, inplace_receiver o = Some r -> writes_buffers o = true \/ y <> r) ->
+             legs_view (fst (exec h o)) y = legs_view h y /\
+             In (nth l (legs h) dleg) (legs_view (fst (exec h o)) y)).
+Proof. exact legs_shared_across_tensors. Qed.
+
+(* ---- MPS level (Model/StoreMps.v: an MPS = list of tensor references into the heap + forms + norm + singular values;
+   get_B / set_B / __init__ / measurement programs composed of the transformers of Model/Store.v, following
+   tenpy/networks/mps.py for trivial charge shift and label_p=None).  The StoreMps definitions are tied to the code
+   only through being built from the correspondence-checked transformers `exec` of Store.v; no checker replays them.
+   For every well-formed heap and MPS (any number of sites, any site index, any scale function sc):
+   (1) get_B(i, form, copy), whenever it returns: heap well-formed, MPS well-formed, the MPS view (values of all site
+       tensors, forms, norm, singular values) unchanged, EVERY pre-existing tensor reads the same, the result is live,
+       and with copy=True the result is a fresh reference that is not one of the MPS's references;
+   (2) get_B(copy=True) without form conversion returns a fresh deep copy with the value of site i;
+   (3) measurement programs (any list of get_B calls, operations that are not in-place, and rebinding in-place methods
+       on tensors created during the measurement): MPS view unchanged, every pre-existing tensor reads the same;
+   (4) get_B(copy=False) without form conversion returns THE STORED REFERENCE and leaves the heap as it is;
+   (5) an in-place method called through that alias changes no other site of an MPS whose sites are separate. *)
+Theorem T03_mps_ops_frame : forall sc h m, wf h -> mps_wf h m ->
+  (forall i fm cp h' r, i < length (sites m) -> get_B sc h m i fm cp = Some (h', r) ->
+     wf h' /\ mps_wf h' m /\ mps_view h' m = mps_view h m /\
+     (forall x, x < length (objs h) -> denote h' x = denote h x) /\ live h' r /\
+     (cp = true -> length (objs h) <= r /\ ~ In r (sites m))) /\
+  (forall i fm, i < length (sites m) -> form_matches m i fm ->
+     get_B sc h m i fm true = Some (exec h (OCopy true (site m i))) /\
+     snd (exec h (OCopy true (site m i))) = length (objs h) /\
+     denote (fst (exec h (OCopy true (site m i)))) (length (objs h)) = denote h (site m i)) /\
+  (forall prog, meas_ok sc (length (objs h)) h m prog ->
+     wf (run_meas sc h m prog) /\ mps_wf (run_meas sc h m prog) m /\
+     mps_view (run_meas sc h m prog) m = mps_view h m /\
+     forall x, x < length (objs h) -> denote (run_meas sc h m prog) x = denote h x) /\
+  (forall i fm, i < length (sites m) -> form_matches m i fm ->
+     get_B sc h m i fm false = Some (h, site m i)) /\
+  (forall i o, mps_sep h m -> i < length (sites m) -> inplace_receiver o = Some (site m i) ->
+     forall j, j < length (sites m) -> j <> i -> denote (fst (exec h o)) (site m j) = denote h (site m j)).
+Proof. exact mps_ops_frame. Qed.
+
+(* get_B(copy=False) aliasing: the returned reference IS site i's; ANY in-place method of the model applied through it
+   leaves every other site tensor unchanged (forms, norm, singular values are fields of m, which no heap operation
+   touches), and the MPS observes the write: after the compiled iscale_prefactor (OMapWrite) through the alias the
+   value of site i has blocks map f (old blocks), everything else of it unchanged. *)
+Theorem T03_mps_getB_alias : forall sc h m i fm, wf h -> mps_wf h m -> mps_sep h m -> i < length (sites m) ->
+  form_matches m i fm ->
+  get_B sc h m i fm false = Some (h, site m i) /\
+  (forall o, inplace_receiver o = Some (site m i) ->
+     forall j, j < length (sites m) -> j <> i -> denote (fst (exec h o)) (site m j) = denote h (site m j)) /\
+  (forall f, NoDup (blk (obj h (site m i))) ->
+     denote (fst (exec h (OMapWrite (site m i) f))) (site m i) =
+     (let '(b, t, l, lb, q) := denote h (site m i) in (map f b, t, l, lb, q))).
+Proof. exact mps_getB_alias. Qed.
+
+(* MPS.__init__ copies: Bs = the caller's tensors with the axes permutation that itranspose(['vL','p','vR']) applies.
+   The result is well-formed, the sites are pairwise different objects with disjoint buffers (mps_sep), the caller's
+   tensors read the same, site j is a FRESH reference whose value is the transposed value of the j-th input;
+   afterwards NO in-place method on a caller's tensor (r < length (objs h)) changes any site tensor, and NO in-place
+   method on a site changes a tensor of the caller. *)
+Theorem T03_mps_init_copies : forall h Bs fms n sv, wf h -> inputs_ok h Bs -> length fms = length Bs ->
+  wf (fst (mps_init h Bs fms n sv)) /\ mps_wf (fst (mps_init h Bs fms n sv)) (snd (mps_init h Bs fms n sv)) /\
+  mps_sep (fst (mps_init h Bs fms n sv)) (snd (mps_init h Bs fms n sv)) /\
+  length (sites (snd (mps_init h Bs fms n sv))) = length Bs /\
+  forms (snd (mps_init h Bs fms n sv)) = fms /\ nrm (snd (mps_init h Bs fms n sv)) = n /\
+  svs (snd (mps_init h Bs fms n sv)) = sv /\
+  (forall x, x < length (objs h) -> denote (fst (mps_init h Bs fms n sv)) x = denote h x) /\
+  (forall j, j < length Bs ->
+     length (objs h) <= site (snd (mps_init h Bs fms n sv)) j /\
+     NoDup (blk (obj (fst (mps_init h Bs fms n sv)) (site (snd (mps_init h Bs fms n sv)) j))) /\
+     denote (fst (mps_init h Bs fms n sv)) (site (snd (mps_init h Bs fms n sv)) j) =
+     transpose_value (snd (nth j Bs (0, []))) (denote h (fst (nth j Bs (0, []))))) /\
+  (forall o r j, inplace_receiver o = Some r -> r < length (objs h) -> j < length Bs ->
+     denote (fst (exec (fst (mps_init h Bs fms n sv)) o)) (site (snd (mps_init h Bs fms n sv)) j) =
+     denote (fst (mps_init h Bs fms n sv)) (site (snd (mps_init h Bs fms n sv)) j)) /\
+  (forall o j x, inplace_receiver o = Some (site (snd (mps_init h Bs fms n sv)) j) -> j < length Bs ->
+     x < length (objs h) ->
+     denote (fst (exec (fst (mps_init h Bs fms n sv)) o)) x = denote (fst (mps_init h Bs fms n sv)) x).
+Proof. exact mps_init_spec. Qed.
+
+(* set_B(i, B, form) stores THE GIVEN REFERENCE b (no copy: a later write through b is a write to site i) and the form;
+   all other sites and forms, norm, singular values unchanged; in the heap only b itself may read differently
+   (itranspose is applied to it), every other tensor -- in particular every other site that is not b -- reads the same. *)
+Theorem T03_mps_set_B : forall h m i b fm perm,
+  wf h -> mps_wf h m -> live h b -> perm_ok h b perm -> i < length (sites m) ->
+  wf (fst (set_B h m i b fm perm)) /\ mps_wf (fst (set_B h m i b fm perm)) (snd (set_B h m i b fm perm)) /\
+  site (snd (set_B h m i b fm perm)) i = b /\ nth i (forms (snd (set_B h m i b fm perm))) None = fm /\
+  (forall j, j <> i -> site (snd (set_B h m i b fm perm)) j = site m j /\
+                       nth j (forms (snd (set_B h m i b fm perm))) None = nth j (forms m) None) /\
+  nrm (snd (set_B h m i b fm perm)) = nrm m /\ svs (snd (set_B h m i b fm perm)) = svs m /\
+  length (sites (snd (set_B h m i b fm perm))) = length (sites m) /\
+  (forall x, x < length (objs h) -> x <> b -> denote (fst (set_B h m i b fm perm)) x = denote h x).
+Proof. exact set_B_spec. Qed.
+
+(* get_B and measurement programs rebind no pre-existing Array record: the separation of the sites (hypothesis of
+   T03_mps_getB_alias, established by T03_mps_init_copies) persists through them *)
+Theorem T03_mps_sep_preserved : forall sc h m, wf h -> mps_wf h m -> mps_sep h m ->
+  (forall i fm cp h' r, i < length (sites m) -> get_B sc h m i fm cp = Some (h', r) -> mps_sep h' m) /\
+  (forall prog, meas_ok sc (length (objs h)) h m prog -> mps_sep (run_meas sc h m prog) m).
+Proof. exact mps_sep_preserved. Qed.
+
+(* frame over whole MPS-level histories: get_B calls (any form, copy flag; results kept alive), measurement programs and
+   arbitrary applicable operations of the store model `POp o` interleaved in any order and number, where every `POp o`
+   has no site of the MPS in its may_change (o is not an in-place method on a site tensor / on a tensor sharing a buffer
+   with one: the documented contract of get_B(copy=False)).  At the end the heap and the MPS are well-formed and the
+   MPS view -- values of all site tensors, forms, norm, singular values -- is what it was at the start. *)
+Theorem T03_mps_history : forall sc m ps h, wf h -> mps_wf h m -> mps_run_ok sc h m ps ->
+  wf (mps_run sc h m ps) /\ mps_wf (mps_run sc h m ps) m /\ mps_view (mps_run sc h m ps) m = mps_view h m.
+Proof. exact mps_history_frame. Qed.
+
 (* non-vacuity and the looseness of shallow copies: a write through a shallow copy IS visible through the
    other reference for buffer-writing methods and is NOT for rebinding methods (both allowed by Array.copy) *)
 Example T03_shallow_copy_visibility :
@@ -149,6 +264,37 @@ Example T03_example_history :
              OScaleAxis 1 dbl; OUnary 0 dbl].
 Proof. exact example_history_ok. Qed.
 
+(* non-vacuity of the MPS theorems: ex_h0 holds two caller tensors (2 blocks / 1 block) that share LegCharge objects;
+   ex_hm = the two-site MPS the constructor builds from them (forms B, A).  The inputs satisfy the hypotheses of
+   T03_mps_init_copies; the result satisfies those of T03_mps_ops_frame / T03_mps_getB_alias; a 7-step measurement
+   (get_B with conversion, aliasing get_B, copying get_B, tensordot of the results, itranspose of the product,
+   a * 2 of a site) is an accepted program; a write through the alias of site 0 is observed. *)
+Example T03_example_mps_inputs : wf ex_h0 /\ inputs_ok ex_h0 ex_Bs.
+Proof. exact ex_inputs. Qed.
+Example T03_example_mps : wf (fst ex_hm) /\ mps_wf (fst ex_hm) (snd ex_hm) /\ mps_sep (fst ex_hm) (snd ex_hm) /\
+  length (sites (snd ex_hm)) = 2.
+Proof. exact ex_mps. Qed.
+Example T03_example_measurement : meas_ok ex_sc (length (objs (fst ex_hm))) (fst ex_hm) (snd ex_hm)
+  [MsGet 0 form_Th false; MsGet 1 form_A false; MsGet 1 None true;
+   MsOp (OTensordot 4 5 [0; 1; 2] [0; 1; 2] (fun _ _ => ([[1%Z]], [[]]))); MsOp (OMeta 8 (fun t => t) []);
+   MsGet 0 form_B false; MsOp (OUnary 2 dbl)].
+Proof. exact ex_meas. Qed.
+Example T03_example_alias_write : get_B ex_sc (fst ex_hm) (snd ex_hm) 1 form_B true <> None /\
+  form_matches (snd ex_hm) 0 form_B /\ inplace_receiver (OMapWrite (site (snd ex_hm) 0) dbl) = Some (site (snd ex_hm) 0) /\
+  denote (fst (exec (fst ex_hm) (OMapWrite (site (snd ex_hm) 0) dbl))) (site (snd ex_hm) 0)
+    <> denote (fst ex_hm) (site (snd ex_hm) 0).
+Proof. exact ex_getB. Qed.
+Example T03_example_shared_leg : live ex_h0 0 /\ live ex_h0 1 /\ In 1 (lg (obj ex_h0 0)) /\ In 1 (lg (obj ex_h0 1)).
+Proof. exact ex_shared_leg. Qed.
+
+(* an admissible MPS-level history on ex_hm: an aliasing get_B, a compiled iscale_prefactor on a caller's tensor, a
+   converting+copying get_B, an in-place method on its result, a measurement, a shallow copy of a site, iproject on the
+   caller's other tensor *)
+Example T03_example_mps_history : mps_run_ok ex_sc (fst ex_hm) (snd ex_hm)
+  [PGet 0 form_B false; POp (OMapWrite 0 dbl); PGet 1 form_Th true; POp (OMapRebind 4 dbl (fun t => t) [2; 1; 0]);
+   PMeas [MsGet 0 form_A false; MsOp (OAdd 5 5 (fun x y => x ++ y))]; POp (OCopy false 2); POp (OProject 1 dbl (fun t => t) [dleg])].
+Proof. exact ex_mps_history. Qed.
+
 Print Assumptions T03_frame_all_ops.
 Print Assumptions T03_frame_tensordot.
 Print Assumptions T03_frame_add.
@@ -165,3 +311,10 @@ Print Assumptions T03_deepcopy_independent.
 Print Assumptions T03_history.
 Print Assumptions T03_wf_preserved.
 Print Assumptions T03_checked_histories_covered.
+Print Assumptions T03_legs_shared_across_tensors.
+Print Assumptions T03_mps_ops_frame.
+Print Assumptions T03_mps_getB_alias.
+Print Assumptions T03_mps_init_copies.
+Print Assumptions T03_mps_set_B.
+Print Assumptions T03_mps_sep_preserved.
+Print Assumptions T03_mps_history.
